@@ -50,6 +50,12 @@ var Messages = []string{
 	"  padded text  ",
 	"",
 	"127.0.0.1 - - [05/Mar/2024:12:30:45 +0800] \"GET /x HTTP/1.1\" 200 612",
+	// SQL whose tokenisation depends on how a backslash inside a string literal is read
+	"SELECT 'a\\' FROM t",
+	"SELECT 'a\\\\' , b -- '\nFROM t",
+	"select \"x\\\"y\" from t where a = 'b\\'' and c = 1",
+	"INSERT INTO t VALUES ('it''s', \"q\", 3.5, NULL) /* c */",
+	"multi\nline \"quoted\" text\twith\ttabs",
 }
 
 // Stamps: with year and zone, zone-less (default zone applies), year-less redis layout (clock applies).
@@ -204,7 +210,13 @@ if false {
 		return "url_decode(_)\nuppercase(s)\ntrim(_)\n"
 	},
 	func(r *simrt.RNG, id int) string {
-		return "replace(s, \"(1[0-9]{2})[0-9]{4}([0-9]{4})\", \"$1****$2\")\nstrfmt(fmtd, \"%v-%s\", n, s)\n"
+		// several different (valid) patterns, often two in one script
+		pats := []string{"(1[0-9]{2})[0-9]{4}([0-9]{4})", "[0-9]+", "[a-z]+", "l+", "\\\\s+", "^h"}
+		out := fmt.Sprintf("replace(s, \"%s\", \"$1****$2\")\nstrfmt(fmtd, \"%%v-%%s\", n, s)\n", pats[r.Intn(len(pats))])
+		if r.Intn(2) == 0 {
+			out += fmt.Sprintf("replace(_, \"%s\", \"N\")\n", pats[r.Intn(len(pats))])
+		}
+		return out
 	},
 	// collections on the stack
 	func(r *simrt.RNG, id int) string {
